@@ -6,6 +6,7 @@ the other modules' drivers are built - operators, blends and differences."""
 import json, random, itertools
 from common import *
 from colours import *
+OPS_EXTRA = {"cam16ucsjab": [(0, 100), (-50, 50), (-50, 50)], "cam16ucsjmh": [(0, 100), (0, 50), None]}    # operator driver only
 
 
 def gen(ctx, path):
@@ -85,7 +86,7 @@ def other_surfaces(ctx):
     """operators (C10 driver) and blends / compositing (C08 driver) on their quick lattices, judged for finiteness here"""
     bins = cargo_build(["ops", "blend", "cam16"])
     nodes = ctx.p("nodes.json")
-    json.dump({k: [None if r is None else list(r) for r in v] for k, v in NODES.items()}, open(nodes, "w"))
+    json.dump({k: [None if r is None else list(r) for r in v] for k, v in list(NODES.items()) + list(OPS_EXTRA.items())}, open(nodes, "w"))
     out = []
     tp = ctx.p("c07.ops.ndjson")
     run_bin(bins["ops"], ["--tier", "quick", "--nodes", nodes, "--out", tp], env={"VERIF_SEED": ctx.seed})
